@@ -331,4 +331,56 @@ func runC19(w *World, r *Report) {
 			r.check(e.conv != "?", "no-unknown-source", name+"/"+e.dst, e.pos, "recognised conversion", "stored value is "+e.src)
 		}
 	}
+
+	// the transcoders are pure functions of their input: a storage / wire form that aliases shared state changes
+	// after it was handed out (e.g. a pooled buffer reused by the next encode)
+	r.rule("transcoders-stateless", "the functions that produce or read a storage / wire form touch no package-level mutable state (only error sentinels): their result cannot alias storage another call reuses", 6)
+	var coders []*ssa.Function
+	for _, pk := range []string{"accountant", "transaction", "spice", "transformers", "gossip"} {
+		for _, fn := range w.RepoFuncs(pk) {
+			if fn.Parent() != nil {
+				continue
+			}
+			n := strings.ToLower(fn.Name())
+			isCoder := n == "encode" || n == "decode" || strings.HasPrefix(n, "decode") && pk != "gossip" || strings.HasPrefix(n, "encode") && pk != "gossip" ||
+				fn.Name() == "mapAccountantVertexToProtoVertex" || fn.Name() == "mapProtoVertexToAccountantVertex" || fn.Name() == "TrxToProtoTrx" || fn.Name() == "ProtoTrxToTrx"
+			if isCoder {
+				coders = append(coders, fn)
+			}
+		}
+	}
+	for _, fn := range coders {
+		var shared []string
+		seenFn := map[*ssa.Function]bool{}
+		var scan func(f *ssa.Function, d int)
+		scan = func(f *ssa.Function, d int) {
+			if seenFn[f] {
+				return
+			}
+			seenFn[f] = true
+			for _, ff := range WithAnon(f) {
+				instrsOf(ff, func(in ssa.Instruction) {
+					for _, op := range in.Operands(nil) {
+						if g, ok := (*op).(*ssa.Global); ok && isRepoGlobal(g) {
+							if pt, ok := g.Type().Underlying().(*types.Pointer); ok && isErrorType(pt.Elem()) {
+								continue
+							}
+							shared = append(shared, g.Name())
+						}
+					}
+					if c, ok := in.(ssa.CallInstruction); ok && d < 2 {
+						if h := samePkgHelper(ff, c); h != nil {
+							scan(h, d+1)
+						}
+					}
+				})
+			}
+		}
+		scan(fn, 0)
+		r.check(len(shared) == 0, "transcoders-stateless", shortFn(fn), w.Pos(fn.Pos()), "no package-level state is used while transcoding", "uses package-level "+strings.Join(uniqStrings(shared), ", "))
+	}
+}
+
+func isRepoGlobal(g *ssa.Global) bool {
+	return g.Pkg != nil && strings.HasPrefix(g.Pkg.Pkg.Path(), modPath)
 }
